@@ -149,7 +149,9 @@ func (e *env) gen(adversary string) *hcase {
 			hc.frames = append(hc.frames, msgs[i].frames...)
 		}
 	}
-	seq := uint32(e.rnd.Pick(1, 2, 51, 1000, 70000))
+	// numbering: consecutive from a start value; 4294967295 is followed by 0 (the wrap-around
+	// Part 6 allows), and a peer may also start at 0
+	seq := uint32(e.rnd.Pick(1, 2, 51, 1000, 70000, 0, 0, 4294967293, 4294967294, 4294967295))
 	for i := range hc.frames {
 		hc.frames[i].chunk.Seq = seq
 		seq++
@@ -196,6 +198,17 @@ func (e *env) gen(adversary string) *hcase {
 			return nil
 		}
 		i := cand[e.rnd.Intn(len(cand))]
+		if e.rnd.Chance(50) {
+			// number the stream so that exactly the chunk that gets repeated carries number 0
+			// (numbering from 0, or through the wrap …, 4294967295, 0, 1, …)
+			n := uint32(0) - uint32(i)
+			for k := range hc.frames {
+				hc.frames[k].chunk.Seq = n
+				n++
+			}
+			seq = n
+			e.r.Hit("dup:of-the-chunk-numbered-0")
+		}
 		j := i + 1
 		for hc.frames[j].chunk.Req != hc.frames[i].chunk.Req {
 			j++
